@@ -197,8 +197,13 @@ L_RelayOnce ==
                      Count(od, LAMBDA m : m.t = "ENTITY_DELETE_BROADCAST" /\ m.eid = rq.eid) = 1
                /\ (rq.k = "Join" /\ HasMsg(oc, "JOIN_RESPONSE") /\ FirstMsg(oc, "JOIN_RESPONSE").sid = b[2]) =>
                      Count(od, LAMBDA m : m.t = "JOIN_BROADCAST" /\ m.pid = FirstMsg(oc, "JOIN_RESPONSE").pid) = 1
+               \* (two members may send the very same action in one phase: their relays cannot be told apart, so
+               \*  the count is compared with the number of such accepted requests of the others)
                /\ (rq.k = "Action" /\ bc[2] = b[2] /\ bc[3] # 0 /\ HasMsg(oc, "ACTION_RESPONSE")) =>
-                     Count(od, LAMBDA m : m.t = "ACTION_BROADCAST" /\ m.eid = rq.eid /\ m.v = rq.v) = 1
+                     Count(od, LAMBDA m : m.t = "ACTION_BROADCAST" /\ m.eid = rq.eid /\ m.v = rq.v) =
+                       Cardinality({q2 \in ToSet(Lg.reqs) : /\ q2[1] # d /\ q2[2].k = "Action" /\ q2[2].eid = rq.eid /\ q2[2].v = rq.v
+                                                             /\ PreRow(Lg, q2[1])[2] = b[2] /\ PreRow(Lg, q2[1])[3] # 0
+                                                             /\ HasMsg(NormOut(Lg.douts[q2[1]]), "ACTION_RESPONSE")})
                /\ (rq.k = "AssetAdd" /\ bc[2] = b[2] /\ bc[3] # 0 /\ HasMsg(oc, "ASSET_ADD_RESPONSE")) =>
                      Count(od, LAMBDA m : m.t = "ASSET_ADD_BROADCAST" /\ m.eid = rq.eid /\ m.v = FirstMsg(oc, "ASSET_ADD_RESPONSE").v) = 1
         \* departures (by disconnect or by joining elsewhere) of connections that were in d's session
@@ -207,7 +212,7 @@ L_RelayOnce ==
              (bc[3] # 0 /\ bc[2] = b[2] /\ (ac[2] # bc[2] \/ ac[3] # bc[3])) =>
                 Count(od, LAMBDA m : m.t = "LEAVE_BROADCAST" /\ m.pid = bc[3]) = 1
         \* nothing is relayed twice, nothing comes back to its cause
-        /\ \A i, j \in DOMAIN od : (i < j /\ od[i] = od[j]) => od[i].t \notin Relays
+        /\ \A i, j \in DOMAIN od : (i < j /\ od[i] = od[j]) => od[i].t \notin (Relays \ {"ACTION_BROADCAST"})
 
 \* the model-state invariants of RelayConc, while the specification explains the run
 M_Inv == ~lost => NoOrphan /\ SidUnique /\ SidSource /\ NoLockLeft /\ OwnSane
